@@ -1,8 +1,8 @@
 # Table of checks, exec'd by ./check.  reg(id, go-test-run-regex, quick=(rapid checks, shards, timeout s), thorough=(...), ...)
 NOT_APPLICABLE = []
 
-reg("C18", "^TestC18$", q=(3000, 1, 300), t=(20000, 16, 1500),
-    technique="property-based testing: odometer-exhaustive small-scope enumeration + rapid random sequences against an integer-arithmetic specification",
+reg("C18", "^TestC18$", q=(3000, 1, 300), t=(20000, 16, 1500), fuzz=("FuzzC18", 120),
+    technique="property-based testing: odometer-exhaustive small-scope enumeration + rapid random sequences (+ native coverage-guided fuzzing of the same property through rapid.MakeFuzz in the thorough tier) against an integer-arithmetic specification",
     text="Exploration: the real EpochNotifierPerBlock.Start is driven block by block; its published events are compared with an "
          "independent integer specification (one event per epoch with a qualifying seen block, at the first such block). "
          "All N<=3 (thorough 4) windows exhaustively plus random large parameters.",
@@ -17,8 +17,8 @@ reg("C19", "^TestC19$", q=(4000, 1, 300), t=(40000, 16, 1500), fuzz=("FuzzC19", 
     note="Trusted: ref.GlobalIndex (3 lines of big-int arithmetic), protobuf/grpc libraries. Non-canonical on-chain values (bits above 64, rollup bits with the flag set) are outside the stated domain.",
     design="§3 C19")
 
-reg("C17", "^TestC17$", q=(4000, 1, 300), t=(50000, 16, 1800),
-    technique="property-based testing: rapid-generated event layouts and limits against a maximal-prefix / sub-sequence specification; exhaustive endpoint pairs + random pairs for Gap against big-int arithmetic",
+reg("C17", "^TestC17$", q=(4000, 1, 300), t=(50000, 16, 1800), fuzz=("FuzzC17", 180),
+    technique="property-based testing: rapid-generated event layouts and limits against a maximal-prefix / sub-sequence specification; exhaustive endpoint pairs + random pairs for Gap against big-int arithmetic; native coverage-guided fuzzing of the same property through rapid.MakeFuzz in the thorough tier",
     text="Exploration: the exported pure entry points (GetCertificateBuildParamsInternal->limitCertSize, Range, AdaptCertificate, Gap) "
          "are fed generated layouts/limits and compared with an executable specification (same first block, largest permitted "
          "last block, exactly the events of the kept blocks in order; big-int gap).",
@@ -33,7 +33,7 @@ reg("C01", "^TestC01", q=(600, 1, 600), t=(4000, 16, 3000), batch=300,
     design="§3 C01")
 
 reg("C04", "^TestC04$", q=(150, 4, 900), t=(1500, 16, 3600), batch=150,
-    technique="property-based testing, metamorphic: rapid-generated histories with reorgs vs a twin store fed only the surviving blocks, compared over a reflection-enumerated query battery and table dumps",
+    technique="property-based testing, metamorphic: rapid-generated histories with reorgs vs a twin store fed only the surviving blocks, compared over a reflection-enumerated query battery and table dumps; enumerated faults inside the reorg transaction; client-abandoned queries (cancelled contexts) before reorgs",
     text="Exploration: for each of the three stores, generated histories (all event kinds) with nested reorgs and new-fork "
          "continuations; after every reorg and continuation the real store must answer every exported query, and hold every table, "
          "exactly like a fresh store that only ever saw the surviving blocks.",
@@ -41,7 +41,7 @@ reg("C04", "^TestC04$", q=(150, 4, 900), t=(1500, 16, 3600), batch=150,
     design="§3 C04")
 
 reg("C07", "^TestC07$", q=(40, 4, 900), t=(400, 16, 3600), batch=40, level="fault_enumeration",
-    technique="property-based testing with enumerated fault injection: rapid-generated histories; SQL-trigger faults at every row-writing statement of the target block's transaction in turn, cancelled contexts, restarts; oracle = pre-block snapshot equality and a fault-free twin run",
+    technique="property-based testing with enumerated fault injection: rapid-generated histories; SQL-trigger faults at every row-writing statement of the target block's transaction in turn, contexts cancelled at an enumerated observation point (scripted context), unreadable node tables, restarts; oracle = pre-block snapshot equality and a fault-free twin run",
     text="Fault enumeration: for generated histories of the three stores, each storage statement of the target block's transaction "
          "is failed in turn (trigger from a second connection); after the failure nothing of the block is visible, after the retry "
          "and the remaining blocks every table, query, root and proof equals a fault-free twin.",
@@ -71,7 +71,7 @@ reg("C11", "^TestC11", q=(250, 4, 900), t=(2000, 16, 3600), batch=250,
     design="§3 C11")
 
 reg("C05", "^TestC05$", q=(300, 4, 900), t=(3000, 16, 3600), batch=300,
-    technique="property-based testing: odometer-exhaustive enumeration of small chains x chunk x pointer scripts + rapid random chains/configs/faults/restarts; oracle = history invariant over the ProcessBlock calls recorded from the real EVMDownloader+EVMDriver on a scripted chain",
+    technique="property-based testing: odometer-exhaustive enumeration of small chains x chunk x pointer scripts + rapid random chains/configs/RPC faults/appender faults/restarts; oracle = history invariant over the ProcessBlock calls recorded from the real EVMDownloader+EVMDriver on a scripted chain",
     text="Exploration: the real downloader and driver run on a deterministic scripted chain whose tip/safe/finalized pointers move at "
          "the node's own polls; the recorded hand-overs must be strictly increasing, carry exactly each block's watched non-removed "
          "logs in order, never pass an undelivered event block, and cover every event block once the node is idle.",
@@ -118,7 +118,7 @@ reg("C09", "^TestC09$", q=(100, 4, 1200), t=(1500, 16, 5400), batch=100,
     design="§3 C09")
 
 reg("C10", "^TestC10(FEP)?$", q=(60, 4, 1200), t=(800, 16, 5400), batch=60,
-    technique="property-based testing: certificates from the real PP flow over rapid-generated worlds, through aggkit's real gRPC client (unix socket) and real storage; oracle = commitment recomputed from the wire message + ecrecover, 3-way field equality (in memory / wire / stored JSON), metamorphic single-field perturbations of every covered field (PP and FEP commitments, identity hash)",
+    technique="property-based testing: certificates from the real PP and aggchain-prover flows over rapid-generated worlds (incl. restarts under a rotated signer key), through aggkit's real gRPC client (unix socket) and real storage; oracle = commitment recomputed from the wire message + ecrecover, 3-way field equality (in memory / wire / stored JSON), metamorphic single-field perturbations of every covered field (PP and FEP commitments, identity hash)",
     text="Exploration: every certificate the node submits is captured three times (object handed to the client, decoded protobuf "
          "message at an in-process server, JSON read back from SQLite); the signature must be the configured signer's over the "
          "commitment recomputed from the wire, all covered fields must agree, and perturbing any covered field must change the commitment.",
@@ -126,7 +126,7 @@ reg("C10", "^TestC10(FEP)?$", q=(60, 4, 1200), t=(800, 16, 5400), batch=60,
     design="§3 C10")
 
 reg("C13", "^TestC13$", q=(150, 4, 1500), t=(600, 16, 5400), batch=40, level="fault_enumeration",
-    technique="property-based testing with enumerated crash/fault injection: rapid-generated prefixes and crash plans (death before/after submit, after store, DB loss) with restart through the real start-up reconciliation and real gRPC client; SQL-trigger faults at every statement of the save transaction; oracle = model Agglayer's chain checks after restart + table snapshot equality",
+    technique="property-based testing with enumerated crash/fault injection: rapid-generated prefixes and crash plans (death before/after submit, after store, DB loss) with restart through the real start-up reconciliation and real gRPC client; SQL-trigger faults at every statement of the save transaction; oracle = model Agglayer's chain checks after restart + bounded progress after the final drain + table snapshot equality",
     text="Fault enumeration: the real aggsender is killed at each externally visible point of the send path or loses its database, "
          "is restarted (aggsender.New + start-up reconciliation over the real gRPC client against the model Agglayer in every "
          "Agglayer-side state) and must then submit only certificates with the right height, previous exit root and first block; "
@@ -151,7 +151,7 @@ reg("C12", "^TestC12$", q=(120, 4, 900), t=(800, 16, 3600), batch=60,
     design="§3 C12")
 
 reg("C06", "^TestC06$", q=(25, 4, 1500), t=(300, 16, 7200), batch=25,
-    technique="property-based testing: rapid-generated chains and fork operations bound to RPC-count triggers (plus restarts) through the real reorg detector + public l1infotreesync.New on a scripted chain; oracle = convergence to the reference of the final canonical chain at harness-detected quiescence + rewind bounds read from the detector's reorg_event table",
+    technique="property-based testing: rapid-generated chains and fork operations bound to RPC-count triggers, some applied atomically between two consecutive RPCs with a finality jump (plus restarts) through the real reorg detector + public l1infotreesync.New on a scripted chain; oracle = convergence to the reference of the final canonical chain at harness-detected quiescence + rewind bounds read from the detector's reorg_event table",
     text="Exploration: the real reorg detector, downloader, driver and L1 info processor follow a scripted chain that forks above the "
          "finalized frontier at generated moments; when the chain stops changing and the node is idle its leaves must be those of "
          "the canonical chain; isolated forks of delivered blocks must produce a rewind at or before the first replaced block; no rewind without a replaced delivered block.",
